@@ -5,6 +5,7 @@ use serde_json::Value;
 pub mod c01;
 pub mod c04;
 pub mod c05;
+pub mod c06;
 pub mod c07;
 pub mod c08;
 pub mod c09;
@@ -21,6 +22,7 @@ pub fn run(ctx: &Ctx, st: &mut Stats) -> bool {
         "C01" => c01::run(ctx, st),
         "C04" => c04::run(ctx, st),
         "C05" => c05::run(ctx, st),
+        "C06" => c06::run(ctx, st),
         "C07" => c07::run(ctx, st),
         "C08" => c08::run(ctx, st),
         "C09" => c09::run(ctx, st),
@@ -42,6 +44,7 @@ pub fn replay(prop: &str, case: &Value, st: &mut Stats) -> bool {
         "C01" => c01::replay(case, st),
         "C04" => c04::replay(case, st),
         "C05" => c05::replay(case, st),
+        "C06" => c06::replay(case, st),
         "C07" => c07::replay(case, st),
         "C08" => c08::replay(case, st),
         "C09" => c09::replay(case, st),
